@@ -624,27 +624,22 @@ def judge_rows(chk, tag, lang, entry, cells, rows_p, rows_t, payload, equal):
     return req, meta
 
 
-PY_TRANSLATED = {'OffsetDateTime': 'datetime'}   # Rust type -> Python type that json_translation_for_type (python.rs) knows
-
-
 def python_option_drops_helpers(lang, c, rp, rt):
     """class of the open finding C04-python-option-drops-helpers: a Python field / struct-variant field whose Rust type is one or more Option
     layers around a type with a custom JSON translation.  python.rs write_field looks the translation up by the formatted text, which is
     `Optional[datetime]` there, finds none and prints the bare type: `Optional[datetime] = Field(default=None)`, while the same field without
-    the Option layer is `Annotated[datetime, BeforeValidator(parse_rfc3339), PlainSerializer(serialize_datetime_data)]`."""
+    the Option layer is `Annotated[datetime, BeforeValidator(parse_rfc3339), PlainSerializer(serialize_datetime_data)]`.
+    Decided by the EXTRACTED Gallina predicate Spec.C04PyHelpers.c04_py_option_drops_helpers (driver command c04_py_helpers_cls) on the
+    Rust base type under the Option layers, their number, and the observed marker / type / twin type."""
     ty = getattr(c, 'ty', None)
-    if lang != 'python' or ty is None or c.depth < 1 or c.pos not in ('field', 'variant_field'):
+    if lang != 'python' or ty is None or c.pos not in ('field', 'variant_field'):
         return False
     base = ty
     while base[0] in ('opt', 'ref', 'wrap'):
         base = base[2] if base[0] == 'wrap' else base[1]
-    if base[0] != 'user' or base[1] not in PY_TRANSLATED:
+    if base[0] != 'user':
         return False
-    py = PY_TRANSLATED[base[1]]
-    bare = py
-    for _ in range(c.depth - 1):
-        bare = f'Optional[{bare}]'
-    return bool(rp[3]) and rp[6] == bare and rt[7].startswith('Annotated[') and rt[7][10:].startswith((py + ',', 'Optional[' + py))
+    return vf.model([f'(c04_py_helpers_cls {S(base[1])} n{c.depth} {B(bool(rp[3]))} {S(rp[6] or "")} {S(rt[7] or "")})'])[0] == 'true'
 
 
 def py_plain(t):
